@@ -30,6 +30,14 @@ CLAIMS = {
          "of random pairs (quick) / all pairs up to 3+3 over {none,A,B}x{x,y} (thorough) built by setters or parsed."),
    technique="Coq proof (induction over the base's runs; per-section refinement to an association-list override) + differential correspondence",
    ref="6 (C03)"),
+ "C05": dict(
+   text=("Theorem C05_inert: in EVERY parser state, for every option, delimiter set and comment set, a line whose first "
+         "non-blank byte is a comment character only extends the pending comment — no key, value, section, continuation or "
+         "error — whatever bytes follow (arbitrary bytes except newline; NUL ends the text). C05_insert_delete: inserting or "
+         "deleting such a line anywhere in a conventional single-line-value file leaves all sections, keys, values unchanged "
+         "(via C02_parse); C05_meaning for all line lists. Tie: listing of files with/without inserted nasty comment lines."),
+   technique="Coq proof (case analysis of the line parser in an arbitrary state; simulation over line meanings) + differential correspondence",
+   ref="6 (C05)"),
  "C08": dict(
    text=("Theorems C08_int32/int64/uint32/uint64: for EVERY value of the type, the typed setter followed by the matching getter "
          "returns the value (decimal printing and strtol-family parsing are modelled and proved inverse, all sizes, by induction "
